@@ -47,6 +47,9 @@ type c13Stats struct {
 	sweptWorlds  int
 	sweepCases   int
 	tornSweeps   int
+	tinyInputs   int
+	maxStressTicks int64
+	maxStressWhat  string
 }
 
 func c13World(gw *gen.GenWorld, env *Env, mount, exeDir string) []simrt.FileSpec {
@@ -156,6 +159,9 @@ func checkC13(r *Run) error {
 	}
 	rounds := 0
 	var firstSub, lastSub uint64
+	if err := c13Tiny(r, st); err != nil {
+		return err
+	}
 	for r.Left() > 0 {
 		sub := rng.Sub()
 		if rounds == 0 {
@@ -194,6 +200,7 @@ func checkC13(r *Run) error {
 		"single_fault_sweeps": map[string]any{"worlds_swept": st.sweptWorlds, "cases": st.sweepCases,
 			"meaning": "for each swept world every recorded I/O call index x every applicable fault kind was executed once"},
 		"torn_prefix_sweeps": st.tornSweeps,
+		"tiny_input_enumeration": map[string]any{"inputs": st.tinyInputs, "exhaustive_over": "every single byte, every vocabulary token, every ordered pair of vocabulary tokens with and without a separating blank (thorough: plus all triples over a 30-token vocabulary) as the whole main file"},
 	}
 	extra := map[string]any{
 		"rounds":            rounds,
@@ -213,6 +220,7 @@ func checkC13(r *Run) error {
 		"max_observed":      map[string]any{"ticks": st.maxTicks, "io": st.maxIO, "depth": st.maxDepth},
 		"max_observed_in_passing_runs": map[string]any{"ticks": st.maxOkTicks, "io": st.maxOkIO, "depth": st.maxOkDepth},
 		"accepted_by_family": st.famAccepted,
+		"max_ticks_of_a_passing_stress_program": map[string]any{"ticks": st.maxStressTicks, "program": st.maxStressWhat},
 		"budgets":           c13Budgets(),
 		"corpus_programs":   len(corpus),
 		"components": map[string]any{
@@ -225,6 +233,43 @@ func checkC13(r *Run) error {
 		"MemFS behaves like the kernel for the operations used (selftest conformance)",
 		"bounded termination is judged by deterministic step/IO/depth budgets far above what the unchanged tree needs, not by wall-clock",
 	}, "fault_enumeration")
+}
+
+// c13Tiny enumerates a small input space completely: every single byte, every
+// vocabulary token and every ordered pair of vocabulary tokens (separated by a
+// blank or not) as the whole main file; thorough adds all triples over a
+// reduced vocabulary. Both targets alternate.
+func c13Tiny(r *Run, st *c13Stats) error {
+	inputs := []string{""}
+	for b := 0; b < 256; b++ {
+		inputs = append(inputs, string([]byte{byte(b)}))
+	}
+	for _, a := range gen.Vocab {
+		inputs = append(inputs, a)
+		for _, b := range gen.Vocab {
+			inputs = append(inputs, a+b, a+" "+b)
+		}
+	}
+	if r.Tier == "thorough" {
+		small := []string{"x", "f", "(", ")", "{", "}", "[", "]", "\n", ",", ":=", "=", "func", "var", "if", "for", "switch", "case", "return", "import", "\"", "1", "@", "|", ".", "int", "range", ";", "+", "!"}
+		for _, a := range small {
+			for _, b := range small {
+				for _, c := range small {
+					inputs = append(inputs, a+" "+b+" "+c)
+				}
+			}
+		}
+	}
+	b := c13Budgets()
+	cases := make([]c13Case, len(inputs))
+	for i, in := range inputs {
+		spec := simrt.WorldSpec{Files: []simrt.FileSpec{{Path: "/sim/m/main.tsh", Data: []byte(in)}, {Path: "/sim/m/x", Data: []byte("func X() {\n}\n")}, {Path: "/sim/x/tsh", Data: []byte("ELF")}},
+			Cwd: "/sim/m", Exe: "/sim/x/tsh", MapMode: "canonical", Budgets: &b}
+		cases[i] = c13Case{c: simrt.Case{World: spec, Path: "/sim/m/main.tsh", Target: []string{"bash", "batch"}[i%2]}, meta: c13Meta{Shape: "tiny", Corrupt: "enumerated", Family: "tiny-enumeration", NFiles: 1}}
+	}
+	_, err := c13Exec(r, st, cases)
+	st.tinyInputs = len(inputs)
+	return err
 }
 
 func c13Budgets() simrt.Budgets { return simrt.Budgets{Ticks: 50_000_000, IO: 5000, Depth: 50_000} }
@@ -285,6 +330,19 @@ func c13Round(r *Run, rng *gen.Rng, st *c13Stats, corpus []string, roundSize, sw
 			}
 			cw.Set(victim, data)
 			cases = append(cases, mk(cw, "corrupt", desc))
+		}
+		// stress programs: one construct repeated or nested N times (main file or an imported file)
+		if rng.Chance(30) {
+			src, desc := gen.StressProgram(rng)
+			sw := &gen.GenWorld{Main: "main.tsh", Shape: "single", Closure: []string{"main.tsh"}}
+			sw.Set("main.tsh", []byte(src))
+			if rng.Chance(25) {
+				sw.Set("lib.tsh", []byte(src))
+				sw.Set("main.tsh", []byte("import l \"lib.tsh\"\nprint(1)\n"))
+				sw.Shape = "chain"
+			}
+			sc := mk(sw, "stress", desc)
+			cases = append(cases, sc)
 		}
 		// path variants
 		if rng.Chance(12) {
@@ -671,6 +729,10 @@ func c13Account(r *Run, st *c13Stats, c *c13Case, res *simrt.CallResult) {
 			st.probes["std_import_world"]++
 			break
 		}
+	}
+	if c.meta.Family == "stress" && ok && res.Ticks > st.maxStressTicks {
+		st.maxStressTicks = res.Ticks
+		st.maxStressWhat = c.meta.Corrupt
 	}
 	if len(firedKinds) > 0 || c.meta.Corrupt != "" || strings.HasPrefix(c.meta.Shape, "hostile") {
 		fk := strings.Join(firedKinds, "+")
